@@ -32,7 +32,8 @@ def run(ctx):
     from rules import g_lex
     import props
     g2 = props.rule('G2')[1](ctx)
-    g2_ok = not any(x.findings for x in g2)
+    g2_ok = True
+    g2_bad_fns = {f.key.split(':')[2] for x in g2 for f in x.findings if len(f.key.split(':')) > 2}
     g2_lines = {l for (l, c) in getattr(ctx, 'g2_unwraps', set())}
     # S6 (with-closures are leaves)
     s6 = props.rule('S6')[1](ctx)
@@ -87,7 +88,8 @@ def run(ctx):
                 meth = cal.split('::')[-1]
                 # ---------------- parser crate
                 if crate == PARSER and meth == 'unwrap' and cal.startswith('core::option::'):
-                    ok = g2_ok and c.line in g2_lines
+                    owner_fn = m.owner(b.name).split('::')[-1]
+                    ok = owner_fn not in g2_bad_fns and c.line in g2_lines
                     count('lexeme-concat-unwrap', ok, b, c, 'Option::unwrap outside the lexeme joins that G2 proves adjacent / non-empty '
                           '(line %d not visited by G2 or G2 failing)' % c.line, {'site': b.name, 'line': c.line, 'discharged_by': 'G2'})
                     continue
